@@ -97,6 +97,13 @@ fn alpha(cfg: &Cfg) -> Vec<Op> {
     ] {
         v.push(c(Decstbm(a, b)));
     }
+    // parameters written with leading zeros: the value is what the digits say, however many
+    v.push(Op::spelled(Cud(Some(2)), "\x1b[000002B"));
+    v.push(Op::spelled(Cuf(Some(2)), "\x1b[0000000002C"));
+    v.push(Op::spelled(Cup(Some(2), Some(2)), "\x1b[000002;0000002H"));
+    v.push(Op::spelled(Cha(Some(2)), "\x1b[00000000000000000002G"));
+    v.push(Op::spelled(Vpa(Some(2)), "\u{9b}0000002d"));
+    v.push(Op::spelled(Cub(Some(1)), "\x1b[000000D"));
     v.push(Op::resize(cfg.cols, cfg.rows + 1));
     v.push(Op::resize(cfg.cols + 1, cfg.rows));
     v.push(Op::resize(cfg.cols.max(2) - 1, cfg.rows.max(2) - 1));
@@ -193,6 +200,54 @@ fn alpha_wide(cfg: &Cfg) -> Vec<Op> {
     super::sweep::layered(super::sweep::wide_placements(cfg), super::sweep::wide_move_funcs(cfg))
 }
 
+/// tab movement over edited stop lists on the realistic screen (its own layered part:
+/// the placements below x the tab functions only)
+fn alpha_wide_tabs(cfg: &Cfg) -> Vec<Op> {
+    let mut place: Vec<Op> = vec![];
+    // edited tab-stop lists: a default stop cleared (none, an early, a middle, the last one),
+    // then one or two stops set left / right of it, the cursor then at the left or right edge
+    let cols = cfg.cols as u32;
+    let defaults: Vec<u32> = (1..).map(|k| k * 8 + 1).take_while(|&c| c <= cols).collect();
+    let mut clears: Vec<Option<u32>> = vec![None];
+    for &c in [defaults.first(), defaults.get(1), defaults.get(defaults.len() / 2), defaults.last()].iter().flatten() {
+        clears.push(Some(*c));
+    }
+    clears.dedup();
+    let sets: Vec<u32> = [3u32, 12, 13, 20, cols / 2 + 3, cols - 2].into_iter().filter(|&c| c >= 2 && c < cols).collect();
+    for clr in &clears {
+        for (i, &s1) in sets.iter().enumerate() {
+            for s2 in std::iter::once(None).chain(sets[i + 1..].iter().map(|&x| Some(x))) {
+                for end in [1, cols] {
+                    let mut seq = vec![];
+                    if let Some(c0) = clr {
+                        seq.push(Cha(Some(*c0)));
+                        seq.push(Tbc(None));
+                    }
+                    // the later stop first, then the earlier one (insertion before existing stops)
+                    if let Some(x) = s2 {
+                        seq.push(Cha(Some(x)));
+                        seq.push(Hts);
+                    }
+                    seq.push(Cha(Some(s1)));
+                    seq.push(Hts);
+                    seq.push(Cha(Some(end)));
+                    place.push(c(Seq(seq)));
+                }
+            }
+        }
+    }
+    let mut funcs = vec![c(Ht), c(Seq(vec![Ht, Ht, Ht])), c(Cbt(None))];
+    for n in 0..=(cols / 8 + 4) {
+        funcs.push(c(Cht(Some(n))));
+        funcs.push(c(Cbt(Some(n))));
+    }
+    for x in [255u32, 256, 65535] {
+        funcs.push(c(Cht(Some(x))));
+        funcs.push(c(Cbt(Some(x))));
+    }
+    super::sweep::layered(place, funcs)
+}
+
 pub fn run(ctx: &Ctx) -> Report {
     let mut rep = Report::new();
     let p = parts!(ctx.tier, &SYS);
@@ -200,6 +255,7 @@ pub fn run(ctx: &Ctx) -> Report {
     run_part(ctx, &mut rep, &medium_part(ctx.tier));
     run_part(ctx, &mut rep, &super::sweep::sweep_part("moves-large-screen-parameter-sweep", &SYS_SWEEP, &alpha_sweep, ctx.tier));
     run_part(ctx, &mut rep, &super::sweep::wide_part("moves-realistic-screen-parameter-sweep", &SYS_SWEEP, &alpha_wide, ctx.tier));
+    run_part(ctx, &mut rep, &super::sweep::wide_part("tab-moves-over-edited-stops-realistic-screen", &SYS_SWEEP, &alpha_wide_tabs, ctx.tier));
     run_part(ctx, &mut rep, &super::sweep::mode_part(&SYS_MODES, ctx.tier));
     super::sweep::mode_number_sweep(ctx, &mut rep, &SYS_MODES);
     rep.rule = "lock-step BFS of (real Vt, reference terminal) over every movement command x parameter class x spelling, DECOM, valid and invalid DECSTBM pairs, text to reach wrap-pending, resizes; after every transition all cells of lines(), the cursor and the specified wrap marks are compared; a probe layer at every new state exposes margins, origin mode, tab stops and saved contexts".into();
@@ -217,6 +273,9 @@ pub fn replay(ctx: &Ctx, v: &Value) -> bool {
     }
     if v["part"] == "mode-list-shapes" {
         return replay_part(ctx, &super::sweep::mode_part(&SYS_MODES, tier), v);
+    }
+    if v["part"] == "tab-moves-over-edited-stops-realistic-screen" {
+        return replay_part(ctx, &super::sweep::wide_part("tab-moves-over-edited-stops-realistic-screen", &SYS_SWEEP, &alpha_wide_tabs, tier), v);
     }
     if v["part"] == "moves-realistic-screen-parameter-sweep" {
         return replay_part(ctx, &super::sweep::wide_part("moves-realistic-screen-parameter-sweep", &SYS_SWEEP, &alpha_wide, tier), v);
